@@ -137,6 +137,9 @@ func Gen(rng *rand.Rand, class string, o GenOpts) *Batch {
 		}
 	case "tall":
 		nDocs, nFieldNames, maxInst, nTerms, maxToks = 1100+rng.Intn(1500), 1+rng.Intn(2), 1, 3+rng.Intn(3), 2
+		if rng.Intn(3) == 0 {
+			nDocs = []int{1023, 1024, 1025, 2047, 2048, 2049}[rng.Intn(6)] // document counts at chunk multiples
+		}
 	case "stored":
 		nDocs, nFieldNames, maxInst, nTerms, maxToks = 2+rng.Intn(10), 2+rng.Intn(5), 1+rng.Intn(3), 4, 2
 	case "multi":
